@@ -106,6 +106,12 @@ def run(ctx, rep):
                "folder yields %s; the interpreter's negate %s" % (sorted(kinds), "keeps the kind" if rt_ok else "rejects it"), ng.span, fn=ng.path,
                key="C06.negate|%s" % k.lower())
 
+    # ---- operand order -----------------------------------------------------------------------------------
+    from props import _operands
+    ffns = [T.fold_fn(TRAIT_OF[op]) for op in ("Subtract", "Divide", "Modulo", "BitwiseLs", "BitwiseRs")]
+    n_sites = _operands.run(F, rep, "C06.operand-order", ffns, "folder")
+    rep.floor("C06.operand-order sites", n_sites, 30)
+
     # ---- (c) ---------------------------------------------------------------------------------------------
     for op in ("Add", "Subtract", "Multiply", "Divide", "Modulo", "BitwiseLs", "BitwiseRs"):
         f = T.fold_fn(TRAIT_OF[op])
